@@ -133,7 +133,7 @@ def run_mutant(job):
     text[lineno] = new
     open(path, "w").write("\n".join(text))
     res = {"file": rel, "line": lineno + 1, "op": op, "old": old.strip(), "new": new.strip()}
-    rc, out = sh(["go", "build", "-ldflags=-checklinkname=0", "./" + pkg + "/..."], wt, 600)
+    rc, out = sh(["go", "test", "-ldflags=-checklinkname=0", "-vet=off", "-count=1", "-run", "^$", "./" + pkg + "/"], wt, 600)
     if rc != 0:
         res["result"] = "does not compile"
         return res
@@ -158,7 +158,7 @@ def run_mutant(job):
             return res
         if rc not in (0, 1):
             res.setdefault("infra", []).append("%s rc=%d" % (prop, rc))
-    res["result"] = "SURVIVED"
+    res["result"] = "SURVIVED" if not res.get("infra") else "check ended with an infrastructure error (time-out)"
     res["secs"] = int(time.time() - t0)
     return res
 
